@@ -85,6 +85,27 @@ class C09(Plugin):
                 out.append({"k": 2, "s": s + ":" + r})
         for r in REFS:
             out.append({"k": 3, "s": r})
+        # the same local name in two namespaces, allowed in one and not in the other, in both orders in ONE stream (a
+        # verdict remembered by name would carry over), and several URI attributes on one element (one harmless or
+        # unparsable, one with a forbidden scheme, in both orders)
+        import html5lib.filters.sanitizer as S
+        names = sorted(set(n for _, n in S.allowed_elements))
+        for n in names:
+            spaces = [ns for ns in (HTML, SVG, MATHML) if (ns, n) in S.allowed_elements]
+            others = [ns for ns in (HTML, SVG, MATHML) if (ns, n) not in S.allowed_elements]
+            for a in spaces[:1]:
+                for b in others[:2]:
+                    for first, second in ((a, b), (b, a)):
+                        out.append({"k": 0, "toks": [{"type": "StartTag", "namespace": first, "name": n, "data": []},
+                                                     {"type": "EndTag", "namespace": first, "name": n},
+                                                     {"type": "StartTag", "namespace": second, "name": n, "data": []},
+                                                     {"type": "EndTag", "namespace": second, "name": n}]})
+        for good in ("pic.png", "#top", "/local", "h://]", "http://[::1"):
+            for bad in ("javascript:alert(1)", "vbscript:x", "data:text/html,x"):
+                for attrs in ([["src", good], ["longdesc", bad]], [["href", bad], ["ping", good]], [["cite", good], ["background", bad]],
+                              [["poster", bad], ["src", good]], [["action", good], ["formaction", bad]]):
+                    out.append({"k": 0, "toks": [{"type": "StartTag", "namespace": HTML, "name": "a",
+                                                  "data": [[[None, k], v] for k, v in attrs]}]})
         return out
 
     def cases(self, rng, n, tier):
@@ -190,6 +211,14 @@ class C09(Plugin):
         if k == 6:
             t = {"type": "StartTag", "namespace": HTML, "name": "p", "data": {(None, "style"): case["s"]}}
             out = self._filter([from_json(to_json(t))])
+            # "the guarantee holds for custom allow-lists as well": the same value through a filter with narrower CSS
+            # lists, after the default filter has seen it in this process
+            from html5lib.filters.sanitizer import Filter
+            with warnings.catch_warnings():
+                warnings.simplefilter("ignore")
+                out2 = list(Filter([from_json(to_json(t))], allowed_css_properties=frozenset(["color"]),
+                                   allowed_svg_properties=frozenset(), allowed_css_keywords=frozenset(["red"])))
+            self._custom_css = out2[0]["data"].get((None, "style"), "")
             return [out[0]["data"].get((None, "style"), "")]
         if k == 5:
             from html5lib.filters.sanitizer import data_content_type
@@ -215,6 +244,9 @@ class C09(Plugin):
             return v
         if k == 6:
             val = out[0]
+            for prop, value in re.findall(r"([-\w]+)\s*:\s*([^:;]*)", getattr(self, "_custom_css", "")):
+                if not (prop.lower() == "color" or prop.lower().split("-")[0] in ("background", "border", "margin", "padding")):
+                    v.append(("css-property-outside-custom-list-kept", repr((case["s"], self._custom_css))))
             if re.search(r"(?i)url\(", val):
                 v.append(("css-url-kept", repr((case["s"], val))))
             for prop, value in re.findall(r"([-\w]+)\s*:\s*([^:;]*)", val):
